@@ -32,6 +32,10 @@ type RuntimeOpts struct {
 	BytesRules bool
 	// JSONNames gives some request fields (path-, query- and body-bound) an explicit json_name.
 	JSONNames bool
+	// AnnotatedBodies puts JSON-mapping annotations whose Go codecs round-trip every value exactly
+	// (int64_encoding=NUMBER, bytes_encoding, nullable) on fields of the reply and of the request bodies,
+	// so that the messages on the wire have a generated MarshalJSON / UnmarshalJSON of their own.
+	AnnotatedBodies bool
 }
 
 var urlFieldNames = []string{"user_id", "org", "page", "q", "name", "ratio", "flag", "item_id", "limit", "cursor", "since", "tenant_name"}
@@ -64,6 +68,22 @@ func GenRuntimeFile(r *R, idx int, o RuntimeOpts) *ir.Request {
 		{Name: "maybe", Number: 11, Kind: "int32", Card: "optional"},
 		{Name: "u", Number: 12, Kind: "uint64"},
 	}}
+	if o.AnnotatedBodies {
+		// ONE annotation kind per message: two kinds on one message each emit their own MarshalJSON
+		// (a recorded C13 finding)
+		tr := true
+		kind := r.Intn(3)
+		for _, fl := range resp.Fields {
+			switch {
+			case kind == 0 && (fl.Name == "count" || fl.Name == "u"):
+				fl.Ann.Int64Enc = "NUMBER"
+			case kind == 1 && fl.Name == "blob":
+				fl.Ann.BytesEnc = Pick(r, []string{"HEX", "BASE64URL", "BASE64_RAW"})
+			case kind == 2 && fl.Name == "maybe":
+				fl.Ann.Nullable = &tr
+			}
+		}
+	}
 	f.Messages = append(f.Messages, leaf, resp)
 	svc := &ir.Service{Name: "Api", BasePath: Pick(r, []string{"/api/v1", "/v2", "/svc"})}
 	verbs := []string{"GET", "POST", "PUT", "DELETE", "PATCH"}
@@ -147,6 +167,7 @@ func GenRuntimeFile(r *R, idx int, o RuntimeOpts) *ir.Request {
 				{Name: "fx", Kind: "fixed64"},
 			}
 			nb := 2 + r.Intn(6)
+			bodyKind := r.Intn(4) // which annotation kind this request message carries (3: none)
 			start := r.Intn(len(body))
 			for b := 0; b < nb; b++ {
 				bf := *body[(start+b*5)%len(body)]
@@ -169,6 +190,16 @@ func GenRuntimeFile(r *R, idx int, o RuntimeOpts) *ir.Request {
 				if o.Rules && bf.Kind == "int32" && bf.Card == "" && r.Bool() {
 					z := "0"
 					bf.Rules = &ir.Rules{Gte: &z}
+				}
+				switch {
+				case !o.AnnotatedBodies:
+				case bodyKind == 0 && (bf.Kind == "int64" || bf.Kind == "fixed64" || bf.Kind == "sint64"):
+					bf.Ann.Int64Enc = "NUMBER"
+				case bodyKind == 1 && bf.Kind == "bytes":
+					bf.Ann.BytesEnc = Pick(r, []string{"HEX", "BASE64URL", "BASE64_RAW"})
+				case bodyKind == 2 && bf.Card == "optional":
+					tr := true
+					bf.Ann.Nullable = &tr
 				}
 				in.Fields = append(in.Fields, &bf)
 			}
